@@ -47,6 +47,7 @@ type c16Item struct {
 	sub        string
 	cookie     string
 	err        error
+	mintErr    error // part "life": CreateSession refused the assertion
 }
 
 func c16LoadVecs(t *testing.T, rep *Report) ([]*c16Vec, []*c16MapVec) {
@@ -357,6 +358,16 @@ func c16JudgeLife(rep *Report, key string, v *c16LifeVec, o c16Obs, expSubject s
 
 func c16RunLife(rep *Report, it *c16Item, now time.Time) {
 	v := it.lvec
+	if it.mintErr != nil {
+		rep.Eval(v.Class, it.key)
+		if v.Class == "MustAccept" {
+			rep.Violation(it.key, fmt.Sprintf("CreateSession creates no session from an assertion none of whose stated ends has passed (%s): %v", c16LifeText(v), it.mintErr),
+				c16ReplayLife(it, now, c16Obs{}))
+		} else {
+			rep.DriftCase(it.key+":mint", "CreateSession refused the assertion: "+c16LifeText(v), it.mintErr.Error())
+		}
+		return
+	}
 	o := c16Request(it.d, c16CookieHeader(it.cookie, it.token, it.rng), nil, it.d.m.RequireAccount)
 	rep.Eval(v.Class, it.key)
 	rep.Trace(1)
@@ -539,6 +550,12 @@ func TestC16(t *testing.T) {
 	// phase 1c: craft and mutate
 	parallel(len(items), func(i int) {
 		it := items[i]
+		if it.err != nil && it.lvec != nil && !strings.HasPrefix(it.err.Error(), "panic") {
+			// CreateSession returned an error for an assertion with IdP-stated ends: behaviour of the code
+			// under test (no session is created), judged in phase 2
+			it.mintErr, it.err = it.err, nil
+			return
+		}
 		if it.err != nil {
 			return
 		}
@@ -834,7 +851,7 @@ func init() {
 			a := c16LifeAssertion(c16BuildAssertion(&r.ExpectSubject, true, r.LifeStmts, r.LifeAuthn), r.LifeEnds, mintSec, d.root+"/saml/acs")
 			tok, err := c16Mint(d, a)
 			if err != nil {
-				t.Fatal(err)
+				return v.Class == "MustAccept", fmt.Sprintf("class=%s CreateSession: %v", v.Class, err)
 			}
 			saml.TimeNow = func() time.Time { return now }
 			o := c16Request(d, r.CookieName+"="+tok, nil, d.m.RequireAccount)
